@@ -109,6 +109,9 @@ CfgTop ==
 RUfrac == { <<P("g", "a"), P("x", "1")>>, <<P("g", "a"), P("x", "3")>>, <<P("g", "b"), P("x", "2")>>, <<P("g", "b"), P("x", "4")>>,
             <<P("x", "4")>>, <<P("g", "a"), P("y", "1")>> }
 CfgFrac == {Cfg("fraction", g, FX, <<>>, 0, o) : g \in {<<>>, G1}, o \in {<<>>, <<"-p">>, <<"-c">>, <<"-p", "-c">>}}
+\* values of mixed sign: the running sum of -c goes down, through zero and back to zero before the total is reached
+RUfracNeg == { <<P("g", "a"), P("x", "1")>>, <<P("g", "a"), P("x", "-1")>>, <<P("g", "a"), P("x", "4")>>, <<P("g", "b"), P("x", "2")>>,
+               <<P("g", "b"), P("x", "-2")>> }
 
 \* ---- histogram: integers, two bins of width 2.5 or 1.5 (no integer on the inner edge)
 RUhist == { <<P("x", "-1")>>, <<P("x", "0")>>, <<P("x", "1")>>, <<P("x", "2")>>, <<P("x", "3")>>, <<P("x", "4")>>, <<P("x", "5")>>,
@@ -157,7 +160,7 @@ Families ==
     Fam(CfgMerge, RUmerge, ExLen, ExLen + 1), Fam(CfgMergeC, RUmergec, ExLen, ExLen + 1),
     Fam(CfgStep, RUint, ExLen, MaxLen + 1), Fam(CfgWin, RUint, ExLen, MaxLen + 1), Fam(CfgTop, RUint, ExLen, MaxLen + 1),
     Fam(CfgFrac, RUfrac, ExLen, MaxLen), Fam(CfgHist, RUhist, ExLen, MaxLen), Fam(CfgFill, RUfill, ExLen, MaxLen),
-    Fam(CfgSep, RUsep, ExLen, MaxLen), Fam(CfgGlue, RUglue, ExLen, MaxLen + 2) }
+    Fam(CfgSep, RUsep, ExLen, MaxLen), Fam(CfgGlue, RUglue, ExLen, MaxLen + 2), Fam(CfgFrac, RUfracNeg, 3, 4) }
 \* x is a case: a configuration of a family with a short stream or one of the sampled longer ones.  (An operator with a parameter,
 \* enumerated by TLC as VerbsAggregateGen's initial states: a constant definition of the whole set would be evaluated, with all
 \* its samples, by every module that extends this one.)
